@@ -594,17 +594,22 @@ CHECKS["C12"] = {
     "pkg": "./cluster",
     "parallel": 8,
     "quick": [
-        {"harness": "VerifC12DefHash", "params": {"ver": _C12V, "nops": 2, "nvals": 2, "namts": 2, "dl": [0, 1]}},
-        {"harness": "VerifC12ConfigHash", "params": {"ver": _C12V, "nops": 2, "nvals": 2, "namts": 2, "dl": [0, 1]}},
-        {"harness": "VerifC12LockHash", "params": {"ver": _C12V, "nv": 2, "ndep": 2, "dl": [0, 1]}},
+        {"harness": "VerifC12DefHash", "params": {"ver": _C12V, "nops": 2, "nvals": 2, "namts": 2, "dl": [0, 1], "nsig": 1}},
+        {"harness": "VerifC12ConfigHash", "params": {"ver": _C12V, "nops": 2, "nvals": 2, "namts": 2, "dl": [0, 1], "nsig": 1}},
+        {"harness": "VerifC12LockHash", "params": {"ver": _C12V, "nv": 2, "ndep": 2, "dl": [0, 1], "nsig": 1}},
+        # v1.11: signature fields holding two concatenated signatures (Safe multisig lists)
+        {"harness": "VerifC12DefHash", "params": {"ver": 11, "nops": 2, "nvals": 1, "namts": 1, "dl": 0, "nsig": 2}},
+        {"harness": "VerifC12LockHash", "params": {"ver": 11, "nv": 1, "ndep": 1, "dl": 0, "nsig": 2}},
     ],
     "thorough": [
-        {"harness": "VerifC12DefHash", "params": {"ver": _C12V, "nops": [1, 3], "nvals": [1, 3], "namts": [1, 3], "dl": [0, 1]}, "cross": True},
-        {"harness": "VerifC12ConfigHash", "params": {"ver": _C12V, "nops": [1, 3], "nvals": [1, 3], "namts": [1, 3], "dl": [0, 1]}, "cross": True},
-        {"harness": "VerifC12LockHash", "params": {"ver": _C12V, "nv": [1, 2, 3], "ndep": [1, 2, 3], "dl": [0, 1]}, "cross": True},
+        {"harness": "VerifC12DefHash", "params": {"ver": _C12V, "nops": [1, 3], "nvals": [1, 3], "namts": [1, 3], "dl": [0, 1], "nsig": 1}, "cross": True},
+        {"harness": "VerifC12ConfigHash", "params": {"ver": _C12V, "nops": [1, 3], "nvals": [1, 3], "namts": [1, 3], "dl": [0, 1], "nsig": 1}, "cross": True},
+        {"harness": "VerifC12LockHash", "params": {"ver": _C12V, "nv": [1, 2, 3], "ndep": [1, 2, 3], "dl": [0, 1], "nsig": 1}, "cross": True},
+        {"harness": "VerifC12DefHash", "params": {"ver": 11, "nops": [1, 2], "nvals": 1, "namts": 1, "dl": 0, "nsig": 2}, "cross": True},
+        {"harness": "VerifC12LockHash", "params": {"ver": 11, "nv": 1, "ndep": 1, "dl": 0, "nsig": 2}, "cross": True},
     ],
     "bounds": {
-        "quick": "every supported format version v1.0..v1.11; two definitions / locks of one version with 2 (or 2 and 1) operators, validator address pairs, deposit amounts, 2 distributed validators with 2 public shares and 2 (or 1) partial deposits each; every string field a symbolic choice between two values, every byte-string field with a symbolic first byte, every number a symbolic byte",
+        "quick": "every supported format version v1.0..v1.11; two definitions / locks of one version with 2 (or 2 and 1) operators, validator address pairs, deposit amounts, 2 distributed validators with 2 public shares and 2 (or 1) partial deposits each; every string field a symbolic choice between two values, every byte-string field with a symbolic first byte, every number a symbolic byte; v1.11 additionally with two concatenated signatures per signature field (symbolic bytes at 0, 64, 65, 66, 100, 129)",
         "thorough": "same with list lengths 1 and 3 (definition) and 1..3 (lock), every VC decided by z3 and cvc5",
     },
     "outside": "everything else C12 states: keystores (scrypt/AES), deposit and registration BLS signatures, EIP-712 operator signatures, share reconstruction, combine, file I/O, and the JSON decode/re-encode round trip (reflection-driven encoding/json); SSZ framing ambiguities between values of different length (each field ranges over two values of equal length); the SHA-256 merkleisation itself (ideal)",
